@@ -308,11 +308,18 @@ def headTable : CM Table := do
 def modHead (f : Table → Table) : CM Unit :=
   modTables fun ts => match ts with | t :: r => f t :: r | [] => []
 
+/-- the symbol `DefineLocal` finds in the store: a BUILTIN entry is only the cache left by an
+    earlier `Resolve` of the builtin, not a definition -/
+def definedSym (name : String) (t : Table) : Option Symbol :=
+  match lookupSym name t.store with
+  | some sym => if sym.scope == .builtin then none else some sym
+  | none => none
+
 /-- `DefineLocal(name)` → (symbol, existed) -/
 def defineLocal (name : String) : CM (Symbol × Bool) := do
   let s ← get
   let t ← headTable
-  match lookupSym name t.store with
+  match definedSym name t with
   | some sym => pure (sym, true)
   | none =>
     let idx := nextIndex s.tables
@@ -553,6 +560,9 @@ def blockOf (body : List Stmt) (act : CM Unit) : CM Unit :=
 def compileDefine (pos : Pos) (ident : String) (allowRedefine : Bool) (keyword : Nat) : CM Unit := do
   let (sym, exists_) ← defineLocal ident
   if !allowRedefine && exists_ && ident != "_" then cerr pos s!"\"{ident}\" redeclared in this block"
+  else if exists_ && sym.scope != .local_ && sym.scope != .constLit then
+    -- only a local can be defined again: a global of the same name has no local slot
+    cerr pos s!"\"{ident}\" redeclared in this block"
   else if sym.constant then cerr pos s!"assignment to constant variable \"{ident}\""
   else do
     let s ← get
